@@ -983,6 +983,14 @@ class UnicodeDammit:
         """
         if not self.is_html:
             return None
+        if self.detector.declared_encoding is None and isinstance(
+            self.detector.markup, bytes
+        ):
+            # The detector only looks for a declaration when it gets
+            # that far down its list of candidates; look now.
+            self.detector.declared_encoding = self.detector.find_declared_encoding(
+                self.detector.markup, self.is_html
+            )
         return self.detector.declared_encoding
 
     def find_codec(self, charset: _Encoding) -> Optional[str]:
